@@ -184,6 +184,7 @@ func checkC05(c *Check) {
 	c.Counts["collector_blocking_resources"] = blockingResources(c, "RESOURCE-PAIR", "HELD-ACROSS-NESTING", colSet)
 
 	c05Settings(c)
+	arrivalOrder(c, "ARRIVAL-ORDER")
 
 	// locate read, claim, lookup
 	var read ssa.CallInstruction
@@ -1047,5 +1048,38 @@ func sourceTextIntact(c *Check, rule string) {
 	})
 	if n == 0 {
 		c.Undecidedf(rule, "consumers", "-", "no consumer of the read content found in the collector: unresolved anchor")
+	}
+}
+
+// arrivalOrder: the collector runs on the errgroup's goroutines, one per
+// import, so anything it appends to a slice of the shared file table is in
+// arrival order — decided by the scheduler and by how long each retrieval
+// takes. The order of files must come from the text (the flatten walk over the
+// recorded imports), never from a list grown by the collector.
+func arrivalOrder(c *Check, rule string) {
+	p := c.P
+	ic := findImportClosure(c)
+	if ic == nil || ic.collector == nil {
+		c.Undecidedf(rule, "collector", "-", "import collector not found: unresolved anchor")
+		return
+	}
+	n := 0
+	for _, f := range withClosures(ic.collector) {
+		eachInstr(f, func(_ *ssa.BasicBlock, i ssa.Instruction) {
+			st, ok := i.(*ssa.Store)
+			if !ok || appendCall(st.Val) == nil {
+				return
+			}
+			own, fld, _, ok := fieldOfAddr(st.Addr)
+			if !ok || own != ic.RL {
+				return
+			}
+			n++
+			c.Flagf(rule, fmt.Sprintf("%s|grows %s.%s", fnName(f), own.Obj().Name(), fld), p.pos(st.Pos()),
+				"the collector, which runs concurrently once per import, appends to %s.%s: the list is in arrival order, which depends on scheduling and retrieval timing — files (and what they declare) would be combined in a different order from run to run", own.Obj().Name(), fld)
+		})
+	}
+	if n == 0 {
+		c.Okf(rule, fnName(ic.collector)+"|no arrival-ordered list", p.pos(ic.collector.Pos()), "the collector appends to no slice of the shared file table %s; file order is derived by the flatten walk", ic.RL.Obj().Name())
 	}
 }
